@@ -296,10 +296,18 @@ func (app *App) addPrefixToRoute(prefix string, route *Route) *Route {
 	route.path = RemoveEscapeChar(prettyPath)
 	route.routeParser = parseRoute(prettyPath, app.customConstraints...)
 	route.Params = parseRoute(prefixedPath, app.customConstraints...).params
+	checkParamCount(prefixedPath, route.routeParser.params)
 	route.root = false
 	route.star = false
 
 	return route
+}
+
+// checkParamCount refuses a pattern whose parameter values would not fit into the context
+func checkParamCount(pattern string, params []string) {
+	if len(params) > maxParams {
+		panic(fmt.Sprintf("route '%s' has %d parameters, at most %d are supported\n", pattern, len(params), maxParams))
+	}
 }
 
 func (*App) copyRoute(route *Route) *Route {
@@ -356,6 +364,7 @@ func (app *App) register(methods []string, pathRaw string, group *Group, handler
 
 	parsedRaw := parseRoute(pathRaw, app.customConstraints...)
 	parsedPretty := parseRoute(pathPretty, app.customConstraints...)
+	checkParamCount(pathRaw, parsedPretty.params)
 
 	isMount := group != nil && group.app != app
 
